@@ -40,7 +40,7 @@ type shape struct {
 }
 
 // routes exercised for every shape
-var routes = []string{"stored-type", "replay-eventtype", "subscribe-with-replay", "subscribe-with-replay-live", "upcast-source", "upcast-target", "eventtype-rule"}
+var routes = []string{"stored-type", "replay-eventtype", "subscribe-with-replay", "subscribe-with-replay-live", "upcast-source", "upcast-target", "eventtype-rule", "after-upcast-replay-and-clear"}
 
 var bg = context.Background()
 
@@ -132,6 +132,38 @@ func mk[T any](name string, sample T, n func(T) int, setN func(int) T) shape {
 			eventbus.SubscribeWithReplay(bg, bus2, "t", func(e Target) { got = append(got, e.N) })
 			if len(got) != 1 || got[0] != 101 {
 				bad("SubscribeWithReplay[Target] after RegisterUpcast[T,Target] received %v, want [101]", got)
+			}
+		case "after-upcast-replay-and-clear":
+			// The names are a property of the stored log and of the event types, not of what
+			// a bus did earlier: after T events were replayed through an upcaster T->Target
+			// (a) the log still holds them under T's name and a bus without that upcaster
+			// still selects them as T, and (b) once the upcasters are cleared (ClearUpcasts)
+			// the same bus selects them as T again too.
+			bus2 := eventbus.New(eventbus.WithStore(ms))
+			if err := eventbus.RegisterUpcast(bus2, func(e T) Target { return Target{N: n(e) + 100} }); err != nil {
+				bad("RegisterUpcast[T,Target] rejected: %v", err)
+				return
+			}
+			bus2.ReplayWithUpcast(bg, eventbus.OffsetOldest, func(*eventbus.StoredEvent) error { return nil })
+			if st := storedTypes(ms); len(st) != 1 || st[0] != want {
+				bad("after an upcasting replay the log holds the event under %v, EventType reports %q", st, want)
+			}
+			bus3 := eventbus.New(eventbus.WithStore(ms))
+			var got []int
+			eventbus.SubscribeWithReplay(bg, bus3, "other-bus", func(e T) { got = append(got, n(e)) })
+			if len(got) != 1 || got[0] != 1 {
+				bad("after an upcasting replay on another bus, SubscribeWithReplay[T] on a bus without upcasters received %v, want [1]", got)
+			}
+			bus2.ClearUpcasts()
+			var types []string
+			bus2.ReplayWithUpcast(bg, eventbus.OffsetOldest, func(se *eventbus.StoredEvent) error { types = append(types, se.Type); return nil })
+			if len(types) != 1 || types[0] != want {
+				bad("after ClearUpcasts, ReplayWithUpcast on the same bus reports the event as %v, EventType reports %q", types, want)
+			}
+			got = nil
+			eventbus.SubscribeWithReplay(bg, bus2, "same-bus", func(e T) { got = append(got, n(e)) })
+			if len(got) != 1 || got[0] != 1 {
+				bad("after ClearUpcasts, SubscribeWithReplay[T] on the same bus received %v, want [1]", got)
 			}
 		case "upcast-target":
 			// T is the target: an Old event upcast to T must be matched as T everywhere.
